@@ -27,7 +27,8 @@ import insp_impl
 from common import Disagreement, req
 
 # the inspectors log every refused descriptor; thousands of generated streams would flood stderr
-logging.getLogger('oslo_utils.imageutils.format_inspector').setLevel(logging.CRITICAL + 1)
+import ambient  # noqa: E402
+ambient.quiet_logger('oslo_utils.imageutils.format_inspector')
 
 K = 1024
 H = 192 * K
